@@ -298,6 +298,36 @@ func listObjects(c *vk.Ctx, r *rand.Rand, p *sem.Prepared, rc *ref.Case, context
 				if finding == "?" {
 					finding = ""
 				}
+				if finding == "" {
+					// the weighted reverse expansion (enable-list-objects-optimizations) omits permitted objects
+					// nondeterministically (listed under C05): every deviating answer comes from optimized servers
+					// only and is a sound subset of the reference set
+					only := true
+					wantSet := map[string]bool{}
+					for _, o := range want {
+						wantSet[o] = true
+					}
+					for k, who := range results {
+						if k == strings.Join(want, ",") {
+							continue
+						}
+						for _, w := range who {
+							if !strings.Contains(w, "lo=optimized") {
+								only = false
+							}
+						}
+						if k != "" {
+							for _, o := range strings.Split(k, ",") {
+								if !wantSet[o] {
+									only = false
+								}
+							}
+						}
+					}
+					if only {
+						finding = "C02-" + sem.FindingOptimizedOmits
+					}
+				}
 				sort.Strings(variants)
 				what := fmt.Sprintf("ListObjects(%s, %s, %s, ctx=%s) returns different sets depending on engine/tuning/strategy: %s; reference: %v", x.t, x.rel, subj, gen.CtxString(rc.Context), strings.Join(variants, " vs "), want)
 				w := witness(p, "all-engines", "", sem.Request{Object: x.t, Relation: x.rel, User: subj, Ctx: rc.Context}, contextual, ref.T, strings.Join(variants, " vs "), map[string]any{"variants": variants, "reference_set": want, "kind": "listobjects"})
